@@ -196,6 +196,22 @@ carquet_batch_reader_t* carquet_batch_reader_create(
         }
     }
 
+    /* A batch is a table of rows: one slot per row and column. A REPEATED
+     * column (or a column under a repeated group) holds a list per row, which
+     * this layout cannot express; reading it row by row would drop and shift
+     * entries. Such columns are read through the column reader instead. */
+    for (int32_t i = 0; i < batch_reader->num_projected; i++) {
+        int32_t col = batch_reader->projected_columns[i];
+        if (col >= 0 && col < total_columns &&
+            reader->schema->max_rep_levels[col] > 0) {
+            free(batch_reader->projected_columns);
+            free(batch_reader);
+            CARQUET_SET_ERROR(error, CARQUET_ERROR_NOT_IMPLEMENTED,
+                "Batch reader does not support repeated column %d", (int)col);
+            return NULL;
+        }
+    }
+
     /* Allocate column reader array */
     batch_reader->col_readers = calloc(batch_reader->num_projected,
                                         sizeof(carquet_column_reader_t*));
